@@ -325,7 +325,6 @@ const (
 	finKeyFinReput   = "C06:badger-finalize-deletes-inherited-node-reput-by-discarded-root"
 	finKeyFinRemoved = "C06:badger-finalize-deletes-removed-node-kept-by-another-finalized-root"
 	finKeyPruneEmpty = "C06:badger-prune-fails-on-version-with-lone-empty-root"
-	finKeyPathDisc   = "C06:pathbadger-discarded-root-still-reported-and-misread"
 )
 
 func openDB(kind, dir string) (api.NodeDB, error) {
@@ -709,11 +708,7 @@ func (r *runner) oracle(op Op, o *opObs) {
 			r.lastBad[key] = true
 			what := fmt.Sprintf("%s: root that was not finalized (version %d, root #%d) is reported present (HasRoot) but reads back %s after %s(%d) %s",
 				r.kind, ro.ver, ro.rid, stName(ro.status), op.K, op.Ver, r.panicText)
-			k := ""
-			if r.kind == "pathbadger" && r.ref.finalized[ro.ver] {
-				k = finKeyPathDisc
-			}
-			report(k, what)
+			report("", what)
 		}
 	}
 	// GetRootsForVersion must list exactly the finalized roots of retained finalized versions
@@ -747,11 +742,7 @@ func (r *runner) oracle(op Op, o *opObs) {
 				key := fmt.Sprintf("roots/%d", v)
 				if !r.lastBad[key] {
 					r.lastBad[key] = true
-					k := ""
-					if r.kind == "pathbadger" && len(got) > len(want) {
-						k = finKeyPathDisc
-					}
-					report(k, fmt.Sprintf("%s: GetRootsForVersion(%d) lists %d non-empty roots, %d are finalized", r.kind, v, len(got), len(want)))
+					report("", fmt.Sprintf("%s: GetRootsForVersion(%d) lists %d non-empty roots, %d are finalized", r.kind, v, len(got), len(want)))
 				}
 			}
 		}
@@ -915,15 +906,6 @@ func runCase(c Case, pl *plan) caseResult {
 		opp := rp.step(op)
 		rp.observe(&opp)
 		rp.oracle(op, &opp)
-		// pathbadger keeps reporting discarded candidates (reported by the oracle as a finding):
-		// the spec comparison (K) uses the answer "absent" for roots the reference has discarded.
-		for j := range opp.roots {
-			ro := &opp.roots[j]
-			if ro.rid >= 2 && rp.ref.finalized[ro.ver] && !rp.ref.present[ro.ver][ro.rid] && ro.has {
-				ro.has, ro.status = false, stAbsent
-				res.stats["pathbadger_discarded_root_reported"]++
-			}
-		}
 		res.obsB = append(res.obsB, ob)
 		res.obsP = append(res.obsP, opp)
 		if rb.stopOracle && res.cutAt == len(c.Ops)-1 {
